@@ -109,6 +109,9 @@ def front_check(PROP, THEOREMS, tier, seed, gen_kw=None, extra_modules=("Model.A
             cls = None
             if exp["uses_include_scope"]:
                 alt = F.expected(stmts, files, ninja_include=False)
+                if alt["error"] == "unpredictable":
+                    stats["unpredicted"] += 1
+                    continue
                 if not alt["error"] and F.compare_expected(alt, got) is None:
                     cls = "include-binding-not-exported"
             if cls is None and any(b["raw_out_dups"] for b in exp["builds"]):
